@@ -177,7 +177,7 @@ func zzMonolith(f *zzFed, w *zzWorld, operation, variables string) (string, bool
 			vars[k] = string(vals[i])
 		}
 	}
-	ex := &zzExec{schema: &def, op: &op, vars: vars, computed: w.computed}
+	ex := &zzExec{schema: &def, op: &op, vars: vars, computed: w.computed, argAware: w.argAware}
 	data := ex.run(w.query)
 	return data, ex.errors > 0
 }
